@@ -22,37 +22,66 @@
 (*                property scan instead of `continue`                      *)
 (*   SwapIn       operation ("AN", "A", "" = none) that passes Role and    *)
 (*                ResultRole in the wrong order                            *)
+(*   ShallowSub   _subclasses_lc collects the DIRECT subclasses only       *)
+(*   IgnoreNs     a stored reference is matched against the source by      *)
+(*                class and key values only (namespace ignored)            *)
 (***************************************************************************)
 EXTENDS Assoc
 
-CONSTANTS LegacyBreak, SwapIn
+CONSTANTS LegacyBreak, SwapIn, ShallowSub, IgnoreNs
 
 IOk(S) == [k |-> "ok", S |-> S]
 IErr4 == [k |-> "err4", S |-> {}]
+IErr6 == [k |-> "err6", S |-> {}]
+IExc == [k |-> "exc:AttributeError", S |-> {}]
 
-RECURSIVE ScanRef(_, _, _, _, _)
-ScanRef(a, x, rc, ro, i) ==
+(* _subclasses_lc(classname): the class and its subclasses                 *)
+(* (_get_subclass_names(..., deep=True))                                   *)
+ImplSubtree(c) ==
+  IF ShallowSub THEN {d \in Classes : d = c \/ Parent(d) = c}
+  ELSE Subtree(c)
+
+(* `prop.value == instname`: CIMInstanceName equality = namespace, class   *)
+(* and key values (host: both None here); v, x = node indexes              *)
+SameObject(G, v, x) ==
+  IF IgnoreNs
+  THEN v # 0 /\ G.nodes[v].cls = G.nodes[x].cls /\ G.nodes[v].kid = G.nodes[x].kid
+  ELSE v = x
+
+RECURSIVE ScanRef(_, _, _, _, _, _)
+ScanRef(G, a, x, rc, ro, i) ==
   IF i > Len(a.ends) THEN FALSE
-  ELSE IF a.ends[i] = x
-       THEN IF rc # "" /\ a.cls \notin Subtree(rc)
-            THEN ScanRef(a, x, rc, ro, i + 1)               \* continue
+  ELSE IF SameObject(G, a.ends[i], x)
+       THEN IF rc # "" /\ a.cls \notin ImplSubtree(rc)
+            THEN ScanRef(G, a, x, rc, ro, i + 1)            \* continue
             ELSE IF ro # "" /\ Roles(a.cls)[i] # ro
                  THEN IF LegacyBreak THEN FALSE              \* break
-                      ELSE ScanRef(a, x, rc, ro, i + 1)     \* continue
+                      ELSE ScanRef(G, a, x, rc, ro, i + 1)  \* continue
                  ELSE TRUE                                   \* add(inst.path)
-       ELSE ScanRef(a, x, rc, ro, i + 1)
+       ELSE ScanRef(G, a, x, rc, ro, i + 1)
 
-(* indexes of the stored copies found by _get_reference_instnames *)
+(* indexes of the stored copies found by _get_reference_instnames (what it *)
+(* returns is inst.path of each: see PathIdx)                              *)
 ImplRefPaths(G, x, rc, ro) ==
   {j \in DOMAIN G.assocs :
-      G.assocs[j].ns = G.nodes[x].ns /\ ScanRef(G.assocs[j], x, rc, ro, 1)}
+      G.assocs[j].ns = G.nodes[x].ns /\ ScanRef(G, G.assocs[j], x, rc, ro, 1)}
+
+(* the stored copy that the path of copy j (namespace pns) names; 0 = none *)
+PathIdx(G, j) ==
+  LET S == {k \in DOMAIN G.assocs :
+              G.assocs[k].ns = G.assocs[j].pns /\ G.assocs[k].g = G.assocs[j].g}
+  IN IF S = {} THEN 0 ELSE CHOOSE k \in S : TRUE
+(* _get_bare_instance / _get_instance look inst.path up in the store of    *)
+(* the SOURCE's namespace                                                  *)
+PathsInStore(G, x, refs) ==
+  \A j \in refs : G.assocs[j].pns = G.nodes[x].ns
 
 (* phase 2 on one referencing instance *)
 ScanAssoc(G, a, x, rc, rr) ==
   {a.ends[q] : q \in {q \in DOMAIN a.ends :
       /\ a.ends[q] # 0              \* absent property: not in inst.properties
       /\ a.ends[q] # x
-      /\ (rc = "" \/ G.nodes[a.ends[q]].cls \in Subtree(rc))
+      /\ (rc = "" \/ G.nodes[a.ends[q]].cls \in ImplSubtree(rc))
       /\ (rr = "" \/ Roles(a.cls)[q] = rr)}}
 
 BadFilterClass(ac, rc) ==
@@ -64,23 +93,29 @@ ImplPhase2(G, x, rc, rr, refs) ==
 
 ImplAssocNames(G, x, ac, rc, rr, ro) ==     \* note the code's argument order
   IF BadFilterClass(ac, rc) THEN IErr4
-  ELSE IOk(ImplPhase2(G, x, rc, rr, ImplRefPaths(G, x, ac, ro)))
+  ELSE LET refs == ImplRefPaths(G, x, ac, ro) IN
+       IF ~PathsInStore(G, x, refs) THEN IExc   \* None.properties
+       ELSE IOk(ImplPhase2(G, x, rc, rr, refs))
 
 (* provider methods; result S = node indexes *)
 ImplAssocOp(op, G, x, ac, rc, ro, rr) ==
   IF SwapIn = op THEN ImplAssocNames(G, x, ac, rc, ro, rr)
   ELSE ImplAssocNames(G, x, ac, rc, rr, ro)
 
-(* ReferenceNames / References; result S = assocs indexes *)
-ImplRefOp(G, x, rc, ro) ==
+(* ReferenceNames ("AN": the paths) / References ("A": the instances got  *)
+(* by path from the store of the source's namespace); S = assocs indexes  *)
+ImplRefOp(op, G, x, rc, ro) ==
   IF rc # "" /\ rc \notin Classes THEN IErr4
-  ELSE IOk(ImplRefPaths(G, x, rc, ro))
+  ELSE LET refs == ImplRefPaths(G, x, rc, ro) IN
+       IF op = "AN" THEN IOk({PathIdx(G, j) : j \in refs})
+       ELSE IF ~PathsInStore(G, x, refs) THEN IErr6
+       ELSE IOk(refs)
 
 (*------------------------- class level -----------------------------------*)
 (* _get_reference_classnames / _get_associated_classnames over the fixed   *)
 (* schema (class names compared as the code does; the source class is      *)
 (* given in its repository spelling iff `exact`)                           *)
-Superclasses(c) == CASE c = "NS" -> {"N"} [] c = "ABS" -> {"AB"} [] OTHER -> {}
+Superclasses(c) == {f \in Classes : f # c /\ Descends(c, f)}
 RefProps(c) == {<<Roles(c)[i], RefClass(c)[i]>> : i \in DOMAIN Roles(c)}
 
 ImplRefClassnames(c, rc, ro) ==
@@ -88,7 +123,7 @@ ImplRefClassnames(c, rc, ro) ==
   ELSE IOk({ac \in AssocClasses :
               \E p \in RefProps(ac) :
                  /\ p[2] \in ({c} \cup Superclasses(c))
-                 /\ (rc = "" \/ ac \in Subtree(rc))
+                 /\ (rc = "" \/ ac \in ImplSubtree(rc))
                  /\ (ro = "" \/ p[1] = ro)})
 
 ImplAssocClassnames(c, exact, ac, rc, rr, ro) ==
@@ -98,8 +133,8 @@ ImplAssocClassnames(c, exact, ac, rc, rr, ro) ==
        IF refs.k # "ok" THEN refs
        ELSE IOk(UNION {
               {p[2] : p \in {p \in RefProps(cl) :
-                  /\ (ac = "" \/ cl \in Subtree(ac))
-                  /\ (rc = "" \/ p[2] \in Subtree(rc))
+                  /\ (ac = "" \/ cl \in ImplSubtree(ac))
+                  /\ (rc = "" \/ p[2] \in ImplSubtree(rc))
                   /\ (rr = "" \/ p[1] = rr)
                   \* the source end is skipped when its class is used once
                   \* (`prop.reference_class == classname`: exact spelling)
